@@ -59,6 +59,10 @@ func extractionSchema(client bool) *Schema {
 		withOpt(upd, "sebuf.http.method_headers", M{"required_headers": []any{hdr("X-Request-ID", "string", "uuid", true), hdr("X-API-Key", "integer", "", true)}})
 	}
 	lst := withOpt(method("ListNotes", ".ext.v1.ListNotesRequest", ".ext.v1.Note"), "sebuf.http.config", M{"path": "/notes/list", "method": "HTTP_METHOD_POST"})
+	if !client {
+		// the method re-declares the service header as optional
+		withOpt(lst, "sebuf.http.method_headers", M{"required_headers": []any{hdr("X-API-Key", "string", "", false)}})
+	}
 	svc := service("NoteService", get, upd, lst)
 	withOpt(svc, "sebuf.http.service_config", M{"base_path": "/api/v1"})
 	withOpt(svc, "sebuf.http.service_headers", M{"required_headers": []any{hdr("X-API-Key", "string", "", true)}})
